@@ -612,8 +612,8 @@ func (v *Int) reduce() *Int {
 	// rest are zero above A's range) the value is A itself
 	if len(v.Lin.T) == 1 && v.Lin.T[0].A.Deps != nil && v.W > 0 && v.Bits[0].K == BLit {
 		a := v.Bits[0].A
-		ok := a.W <= v.W || true
 		n := bitlen(a.Hi)
+		ok := n <= v.W // the atom's whole range must fit: low bits of a wider quantity are not the quantity
 		for i := 0; i < v.W && ok; i++ {
 			b := v.Bits[i]
 			if i < n {
